@@ -12,6 +12,7 @@ The gate application model (`applyGate`, `applyControlled`) is the one of proper
 -/
 import NumqiProofs.Backward
 import NumqiProofs.BackwardDual
+import NumqiProofs.BackwardCarrier
 import Mathlib.Data.Complex.Basic
 
 namespace Numqi.C04
@@ -448,6 +449,27 @@ theorem setup_rows_shared (gs : List GateDesc) (i j : ℕ) (hi : i < gs.length) 
   unfold slotOf
   rw [List.getElem?_eq_getElem hi, List.getElem?_eq_getElem hj]
   simp [hpi, hpj, hti, htj, hn, ho]
+
+/-! ## the executed carriers are instances of the classes the theorems quantify over -/
+
+/-- `GInt = ℤ[i]` (the carrier of the exact tie) is a commutative star-ring whose `star` is the executed `conj`
+(instances in `NumqiProofs/BackwardCarrier.lean`, built from the operations of `NumqiModel/Scalar.lean`, nothing redefined) -/
+theorem carrier_gint_star (a : GInt) : star a = (⟨a.re, -a.im⟩ : GInt) := rfl
+
+/-- `QI = ℚ[i]` is a field whose division is the one `Driver/C04.lean` executes in `sylv` / `sylvf` (`x / 0 = 0`); the driver
+additionally refuses (`nan`) any input for which a pass would divide by a zero sum of two different roots (`sylvDividesAll`) -/
+theorem carrier_qi_division (a b : QI) :
+    a / b = (⟨(a.re * b.re + a.im * b.im) / QI.normSq b, (a.im * b.re - a.re * b.im) / QI.normSq b⟩ : QI) := rfl
+
+/-- the ring-generic sweep theorem at the executed carrier (instantiation check) -/
+example (K S : ℕ) (Θ δΘ : Params GInt) (gates : List (PGate 3 GInt))
+    (hwf : ∀ g ∈ gates, g.WF) (hun : ∀ g ∈ gates, g.IsUnitary Θ) (hr : ∀ g ∈ gates, g.InRange K S)
+    (ψ0 δψ gout : Vec 3 GInt) (G0 : Params GInt) :=
+  reverseSweep_vjp K S Θ δΘ gates hwf hun hr ψ0 δψ gout G0
+
+/-- the field-generic Sylvester theorem at the executed carrier -/
+example (V G : ℕ → ℕ → QI) (s : ℕ → QI) (hV1 : (toMat 3 V)ᴴ * toMat 3 V = 1) (hV2 : toMat 3 V * (toMat 3 V)ᴴ = 1)
+    (hs : ∀ a b, a < 3 → b < 3 → s a + s b ≠ 0) := sylvester_solves V G s hV1 hV2 hs
 
 /-! ## non-vacuity -/
 
